@@ -3,7 +3,7 @@
 run the repository's tests, run the listed quick checks, undo. Prints one line per mutant.
 usage: tools/own_mutants.py [name-substring]"""
 import subprocess, sys, os, re, json
-REPO='/repo'
+REPO=os.environ.get('VERIF_REPO','/repo')
 M=[]
 def m(name, file, old, new, checks, count=1): M.append((name,file,old,new,checks,count))
 H='src/htlc_manager.rs'; P='src/payment_provider.rs'; S='src/store.rs'; MSG='src/messages.rs'; T='src/tlv.rs'; B='src/block_watcher.rs'; MAIN='src/main.rs'; CM='src/cln_plugin/mod.rs'
@@ -159,7 +159,7 @@ for name,file,old,new,checks,count in M:
         print(f"{name}: PATTERN-NOT-FOUND ({src.count(old)})"); continue
     open(path,'w').write(src.replace(old,new))
     try:
-        t=sh('timeout 150 cargo test --offline 2>&1 | grep -E "^error|test result"; pkill -x -f "/repo/target/debug/deps/trampoline-[0-9a-f]*" >/dev/null 2>&1', REPO)
+        t=sh('timeout 150 cargo test --offline 2>&1 | grep -E "^error|test result"; pkill -x -f "[^ ]*/target/debug/deps/trampoline-[0-9a-f]*" >/dev/null 2>&1', REPO)
         tests='pass' if 'ok. 56 passed' in t.stdout else ('BUILD-ERR' if 'error' in t.stdout else ('suite-HANGS' if 'test result' not in t.stdout else 'suite-FAILS:'+t.stdout.strip().split('\n')[-1][:60]))
         out=[]
         for c in checks:
